@@ -18,7 +18,7 @@ LEVEL = 'model_checking'
 TECHNIQUE = ('bounded exhaustive enumeration of item sequences x connective / keyword renderings on find_sec, PLSSDesc and Tract; '
              'reference model = concatenated Python ranges')
 LEVEL_TEXT = ('All sequences of up to 3 (quick) / 4 (thorough) items from a pool that forces overlaps, duplicates, descending and '
-              'degenerate ranges and 1-3 digit numbers, rendered with every combination of 11 through-spellings, 12 and-spellings (incl. upper-case and capitalised words), 11/8 '
+              'degenerate ranges and 1-3 digit numbers, rendered with every combination of 15 through-spellings, 16 and-spellings (incl. upper-case and capitalised words, and lists wrapped onto the next line before or after the connective), 11/8 '
               'keywords, keyword repetition and zero padding for the shortest sequences and every combination of <= 2 (3) '
               'rendering deviations for longer ones, through three observers. Expansion bugs (off-by-one at either end, direction, lost reset of the '
               '"through" state, wrong end position) show with <= 3 items.')
@@ -30,11 +30,13 @@ RULE = (
     "whose expansion has >= 2 numbers."
 )
 ASSUMPTIONS = [
-    "sequences of more than 4 items and connective spellings outside the 11 + 12 listed are not explored",
+    "sequences of more than 4 items and connective spellings outside the 15 + 16 listed are not explored",
 ]
 
-THRU = [' - ', '-', ' through ', ' thru ', ' to ', '–', ' thru. ', ' THROUGH ', ' Thru ', ' TO ', ' Through ']
-AND = [', ', ' and ', ' & ', ', and ', ',', ';', ': ', '. ', ' / ', ', & ', ' AND ', ', And ']
+THRU = [' - ', '-', ' through ', ' thru ', ' to ', '–', ' thru. ', ' THROUGH ', ' Thru ', ' TO ', ' Through ',
+        '\nthrough ', ' through\n', ' -\n', '\n- ']      # the last four: list wrapped onto the next line before / after the connective
+AND = [', ', ' and ', ' & ', ', and ', ',', ';', ': ', '. ', ' / ', ', & ', ' AND ', ', And ',
+       '\nand ', ' and\n', ',\n', '\n& ']
 KW = {'sec': ['Sec ', 'Section ', 'Secs ', 'Sections ', 'Sec. ', 'Secs. ', '§ ', 'Sec', 'Sect. ', 'SECTIONS ', 'sections '],
       'lot': ['Lot ', 'Lots ', 'L', 'L. ', 'Lt ', 'Lot', 'LOTS ', 'lots ']}
 ITEMS = [('s', 3), ('s', 14), ('r', 1, 3), ('r', 9, 11), ('r', 5, 3), ('r', 12, 10), ('s', 7), ('r', 2, 2)]
@@ -132,6 +134,10 @@ def in_alphabet(kind, seq, r):
     if r.get('rep', 0) >= 1 and kw in ('Secs. ',):
         # a *repeated* plural abbreviation followed by a period ('Secs. 1, Secs. 3'): the patterns allow only blanks
         # between a repeated keyword and its number; not a documented spelling
+        return False
+    if kind == 'sec' and AND[r.get('and', 0)] == ': ':
+        # a colon *ends* a section reference ('Sec 14: <description>', the documented Twp/Rge-Sec-desc layout); the statement
+        # lists commas, 'and' / '&', 'through'-style words and a repeated keyword as list connectives, not the colon
         return False
     return True
 
